@@ -334,7 +334,7 @@ void ep4_mul_pre_combd(ep4_t *t, const ep4_t p) {
 
 void ep4_mul_fix_combd(ep4_t r, const ep4_t *t, const bn_t k) {
 	int i, j, d, e, w0, w1, n0, p0, p1;
-	bn_t n;
+	bn_t n, _k;
 
 	if (bn_is_zero(k)) {
 		ep4_set_infty(r);
@@ -342,9 +342,11 @@ void ep4_mul_fix_combd(ep4_t r, const ep4_t *t, const bn_t k) {
 	}
 
 	bn_null(n);
+	bn_null(_k);
 
 	RLC_TRY {
 		bn_new(n);
+		bn_new(_k);
 
 		ep4_curve_get_ord(n);
 		d = bn_bits(n);
@@ -352,7 +354,9 @@ void ep4_mul_fix_combd(ep4_t r, const ep4_t *t, const bn_t k) {
 		e = (d % 2 == 0 ? (d / 2) : (d / 2) + 1);
 
 		ep4_set_infty(r);
-		n0 = bn_bits(k);
+		/* The table covers the bit length of the order only. */
+		bn_mod(_k, k, n);
+		n0 = bn_bits(_k);
 
 		p1 = (e - 1) + (RLC_DEPTH - 1) * d;
 		for (i = e - 1; i >= 0; i--) {
@@ -362,7 +366,7 @@ void ep4_mul_fix_combd(ep4_t r, const ep4_t *t, const bn_t k) {
 			p0 = p1;
 			for (j = RLC_DEPTH - 1; j >= 0; j--, p0 -= d) {
 				w0 = w0 << 1;
-				if (p0 < n0 && bn_get_bit(k, p0)) {
+				if (p0 < n0 && bn_get_bit(_k, p0)) {
 					w0 = w0 | 1;
 				}
 			}
@@ -371,7 +375,7 @@ void ep4_mul_fix_combd(ep4_t r, const ep4_t *t, const bn_t k) {
 			p0 = p1-- + e;
 			for (j = RLC_DEPTH - 1; j >= 0; j--, p0 -= d) {
 				w1 = w1 << 1;
-				if (i + e < d && p0 < n0 && bn_get_bit(k, p0)) {
+				if (i + e < d && p0 < n0 && bn_get_bit(_k, p0)) {
 					w1 = w1 | 1;
 				}
 			}
@@ -380,15 +384,13 @@ void ep4_mul_fix_combd(ep4_t r, const ep4_t *t, const bn_t k) {
 			ep4_add(r, r, t[(1 << RLC_DEPTH) + w1]);
 		}
 		ep4_norm(r, r);
-		if (bn_sign(k) == RLC_NEG) {
-			ep4_neg(r, r);
-		}
 	}
 	RLC_CATCH_ANY {
 		RLC_THROW(ERR_CAUGHT);
 	}
 	RLC_FINALLY {
 		bn_free(n);
+		bn_free(_k);
 	}
 }
 
